@@ -114,6 +114,50 @@ println(xs[5])
 }
 
 
+SWEEP_PROGRAMS = {
+    "growing-array": """let a: array<array<int>> = []
+for i in 60 {
+  a.push([i, i, i])
+}
+println(a.len())
+""",
+    "growing-strings-and-garbage": """var s = "x"
+let keep: array<string> = []
+for i in 40 {
+  s = s .. i
+  keep.push(s)
+  let junk = [s, s .. "!"]
+}
+println(keep.len())
+""",
+    "task-ends-right-after-receiving": """let c: channel<array<int>> = channel()
+let done: channel<int> = channel()
+for r in 4 {
+  task {
+    let got = c.read()
+    done.write(got.len())
+  }
+  let big: array<int> = []
+  for i in 40 { big.push(i) }
+  c.write(big)
+  println(done.read())
+}
+""",
+    "tasks-allocating-then-ending": """let done: channel<int> = channel()
+for r in 3 {
+  task {
+    let xs: array<array<int>> = []
+    for i in 12 { xs.push([i, r]) }
+    done.write(xs.len())
+  }
+}
+var n = 0
+for r in 3 { n = n + done.read() }
+println(n)
+""",
+}
+
+
 def run(ctx):
     q = ctx.quick
     r0 = vlib.Rng(ctx.seed * 3571 + 7)
@@ -196,7 +240,7 @@ def run(ctx):
     stat_tot = {}
     runtimes = 0
 
-    def judge_life(res, name):
+    def judge_life(res, name, H=H, HISTORIES=HISTORIES):
         cr = vlib.crash_of(res)
         if cr:
             return [("%s %s abort" % (PROP, name), cr[1])]
@@ -224,6 +268,35 @@ def run(ctx):
             runtimes += len(res.get("live") or [])
             for k, v in (res.get("statuses") or {}).items():
                 stat_tot[k] = stat_tot.get(k, 0) + v
+    # ---- part C: drop at EVERY step count (the collector is mid-cycle for only a few steps), under
+    # the VM's own pacing and under slow scripted pacing (one object per increment: wide windows)
+    kmax = 360 if q else 1400
+    sweep_h = [{"budget": {"k": k}, "drop_after_calls": 1, "max_steps": 300000} for k in range(1, kmax + 1)]
+    starts = list(range(8, kmax, 23))
+    sweep_h += [{"budget": {"k": k}, "drop_after_calls": 1, "max_steps": 300000,
+                 "gc": {"plan": "scripted", "start": starts, "mark": 1, "sweep": 1}} for k in range(1, kmax + 1, 2)]
+    HS = len(sweep_h)
+    sprogs = [(n, src) for n, src in SWEEP_PROGRAMS.items()]
+    for i in range(2 if q else 12):
+        net = concgen.gen_networks(ctx.seed * 31 + 77 + i, 1, deterministic=False, mutate_after_send=True)[0]
+        sprogs.append(("net:%s" % vlib.hhex(net["src"])[:8], net["src"]))
+    sjobs = [{"id": "s%04d" % i, "mode": "lifecycle", "files": {"main.abra": src}, "histories": sweep_h, "cycles": 3 * HS}
+             for i, (name, src) in enumerate(sprogs)]
+    ctx.ex.count_alloc = True
+    sres = ctx.run(sjobs, threads=1, job_timeout_s=900)
+    ctx.ex.count_alloc = False
+    drop_phase = [0, 0, 0]
+    ok_c = 0
+    for job, (name, src) in zip(sjobs, sprogs):
+        res = sres[job["id"]]
+        found = judge_life(res, "dropsweep " + name, HS, sweep_h)
+        for sig, what in found:
+            ctx.candidate(sig, what + "\n--- program ---\n" + src, job, lambda r, name=name: judge_life(r, "dropsweep " + name, HS, sweep_h))
+        if res.get("compile", {}).get("ok") and not found:
+            ok_c += 1
+            runtimes += len(res.get("live") or [])
+            for ph in range(3):
+                drop_phase[ph] += (res.get("drop_phase") or [0, 0, 0])[ph]
     ctx.coverage(
         evaluations=2 * na + runtimes,
         distinct_nontrivial=ok_a + ok_b,
@@ -239,7 +312,11 @@ def run(ctx):
         lifecycle_programs_flat=ok_b,
         runtimes_created_and_dropped=runtimes,
         lifecycle_endings=stat_tot,
+        dropsweep_programs_flat=ok_c,
+        dropsweep_step_counts=kmax,
+        green_threads_dropped_by_collector_phase={"idle": drop_phase[0], "marking": drop_phase[1], "sweeping": drop_phase[2]},
     )
+    ctx.need(drop_phase[1] >= 20 and drop_phase[2] >= 20 or bool(ctx.candidates), "too few green threads were dropped mid-cycle: %s" % drop_phase)
     ctx.need(ok_a >= 0.9 * na or bool(ctx.candidates), "fewer than 90% of the allocation programs confirmed")
     ctx.need(cycles > 50 and swept > 10000, "too few collection cycles / swept objects: %d / %d" % (cycles, swept))
     ctx.need(stat_tot.get("dropped", 0) > 50 and stat_tot.get("done", 0) > 50 and stat_tot.get("error", 0) > 5, "lifecycle endings too narrow: %s" % stat_tot)
